@@ -548,14 +548,14 @@ func (prop) Run(line string) core.Outcome {
 	f := strings.Fields(line)
 	switch {
 	case len(f) == 2 && f[0] == "hist":
-		return runHist(f[1])
+		return runHist(line, f[1])
 	case len(f) == 3 && f[0] == "cas":
 		return runCAS(f[1], f[2])
 	}
 	return core.Outcome{Impl: "bad-op"}
 }
 
-func runHist(field string) core.Outcome {
+func runHist(line, field string) core.Outcome {
 	var steps []step
 	for _, s := range strings.Split(field, ";") {
 		st, ok := parseStep(s)
